@@ -216,7 +216,7 @@ struct World {
     _keep: Vec<tokio::task::JoinHandle<()>>,
 }
 
-async fn build_world() -> Option<World> {
+async fn build_world(reserved: Vec<std::net::TcpListener>) -> Option<World> {
     let (server_addr, sh) = netkit::start_server(netkit::PASSWORD, engine::default_padding()).await?;
     let client = netkit::make_client(&server_addr, netkit::PASSWORD, engine::default_padding(), netkit::quiet_pool());
     let (http, h1) = netkit::start_http(client.clone()).await?;
@@ -227,9 +227,8 @@ async fn build_world() -> Option<World> {
     let ports = Ports { p4: t4.port, p6: t6.port };
     keep.push(spawn_origin(t4, conns.clone()));
     keep.push(spawn_origin(t6, conns.clone()));
-    for p in [80u16, 443] {
-        keep.push(spawn_origin(Target::bind_v4(p).await?, conns.clone()));
-        keep.push(spawn_origin(Target::bind_v6_loopback(p).await?, conns.clone()));
+    for l in reserved {
+        keep.push(spawn_origin(Target::from_std(l)?, conns.clone()));
     }
     Some(World { http, ports, conns, _keep: keep })
 }
@@ -429,6 +428,11 @@ pub fn run(ctx: Ctx) -> Report {
     let n = ctx.tier.pick(600, 10_000);
     let mut rep = Report::new("C17");
     let seed = ctx.seed;
+    // the scheme-default ports are fixed by the protocol; another run of this check may hold them right now
+    let Some(reserved) = netkit::reserve_ports(&["0.0.0.0:80", "0.0.0.0:443", "[::1]:80", "[::1]:443"], Duration::from_secs(ctx.tier.pick(1500, 7200))) else {
+        rep.inconclusive("ports 80/443 on the loopback are held by another process");
+        return rep;
+    };
     run::case_begin("C17 e2e");
     let out = run::rt_block_on(8, async move {
         let mut rep = Report::new("C17");
@@ -440,8 +444,8 @@ pub fn run(ctx: Ctx) -> Report {
             rep.inconclusive("cannot install fake DNS");
             return rep;
         }
-        let Some(w) = build_world().await else {
-            rep.inconclusive("cannot build world (ports 80/443 in use?)");
+        let Some(w) = build_world(reserved).await else {
+            rep.inconclusive("cannot build world");
             return rep;
         };
         let w = Arc::new(w);
